@@ -1,4 +1,5 @@
 """C02 — equality and ordering are those of the numeric values."""
+import re
 import sys
 import z3
 
@@ -88,8 +89,54 @@ def run_cmp(fn, ga, gb, wx, wy, sx, sy, s0_conc=None):
     return run
 
 
+# log2(10) to 100 significant digits (sympy: log(10, 2).evalf(100)); an error below 1e-99 cannot change the floor of s*log2(10)
+# for s < 2^41 unless the fractional part is within 1e-80 of an integer, which is checked
+_LOG2_10_STR = '3.321928094887362347870319429489390175864831393024580612054756395815934776608625215850139743359370155'
+
+
+def exact_log2_pow10_floor(s):
+    if s <= 20000:
+        return (10 ** s).bit_length() - 1
+    from fractions import Fraction
+    v = Fraction(_LOG2_10_STR) * s
+    f = v.numerator // v.denominator
+    frac = v - f
+    eps = Fraction(1, 10 ** 80)
+    if frac < eps or 1 - frac < eps:
+        raise E.Unsupported('floor(s*log2(10)) not decidable at this precision for s=%d' % s)
+    return f
+
+
+def run_bits_bound(scales):
+    """the bit-length early-out shared by == and cmp: highest_bit_lessthan_scaled(a, b, s) may only answer `true` when
+    a < b*10^s holds for EVERY a, b of the observed bit lengths, i.e. when bits(a) < bits(b) + floor(log2 10^s).
+    Bit lengths are symbolic (any u64 the allocator could produce), the scale is concrete (its float estimate is closed code)."""
+    ab, bb, si = z3.Ints('a_bits b_bits scale_index')
+    a, b = z3.Ints('a b')
+
+    def run(m):
+        m.witness = {'a_bits': ab, 'b_bits': bb, 'scale_index': si}
+        k = m.choose_n(len(scales), lambda i: si == i)
+        s = scales[k]
+        m.assume(z3.And(ab >= 1, bb >= 1, ab < 2 ** 48, bb < 2 ** 48, a >= 1, b >= 1))
+
+        def bits_override(mm, mo, args, tys, dty):
+            x = S.deref(args[0])
+            return ab if x is a else bb
+        bits_override.__name__ = 'bits_symbolic'
+        m.overrides.append((re.compile(r'^(?:num_bigint::)?BigUint::bits$'), bits_override))
+        r = m.call('highest_bit_lessthan_scaled', [Ref([a], 0), Ref([b], 0), s], ['&num_bigint::BigUint', '&num_bigint::BigUint', 'u64'], 'bool')
+        m.labels.add('bit-length early-out')
+        F = exact_log2_pow10_floor(s)
+        rb = r if E.is_sym(r) else z3.BoolVal(bool(r))
+        return [('early-out answers true only when bits(a) < bits(b) + floor(log2(10^s))', z3.And(rb, ab >= bb + F))]
+    return run
+
+
 def worker(t):
     prog = H.get_program()
+    if t.get('kind') == 'bits_bound':
+        return H.explore_task(prog, run_bits_bound(t['scales']), task=t, loop_bound=200, timeout_ms=60000, deadline_s=600)
     W = max(t['wx'], t['wy'], 1)
     S.WORD_BOUND[0] = W + 1
     S.BITS_MODE[:] = ['table', 32 * W + 2]
@@ -134,6 +181,18 @@ def confirm(v):
     t, mdl = v['task'], v['model']
     if not mdl:
         return False, 'no model'
+    if t.get('kind') == 'bits_bound':
+        # witness of the same class: a = 10^s has exactly floor(log2 10^s)+1 bits, b = 1: equal values 10^s@0 and 1@-s
+        s = t['scales'][mdl['scale_index']]
+        if s > 200000:
+            return False, 'scale too large to materialise natively'
+        outs = []
+        for fn, exp in (('eq', 'true'), ('cmp', 'Equal')):
+            for (p, q) in (((10 ** s, 0), (1, -s)), ((1, -s), (10 ** s, 0))):
+                o = H.replay_lines(['cmp\t%s\t%s\t%s' % (fn, H.dec_str(*p), H.dec_str(*q))])[0]
+                outs.append((fn, o, exp))
+        bad = [x for x in outs if x[1] != x[2]]
+        return bool(bad), 'scale %d: %s' % (s, outs)
     line, x, sa, y, sb = native_line(t, mdl)
     outs = [H.replay_lines([line], prof)[0] for prof in ('release', 'debug')]
     exp = expected_out(t['fn'], x, sa, y, sb)
@@ -226,9 +285,14 @@ def main(tier):
                 for sx, sy in [(1, 1), (-1, -1), (1, -1)]:
                     tasks.append({'fn': fn, 'ga': sa, 'gb': sb, 'wx': wx, 'wy': wy, 'sx': sx, 'sy': sy, 's0': 0})
     tasks.sort(key=lambda t: -(t['wx'] * t['wy']))
-    rep.required_labels = {'eq:True', 'eq:False', 'cmp:Less', 'cmp:Equal', 'cmp:Greater'}
+    # the bit-length early-out for every scale difference up to SB (its float estimate of log2(10^s) is closed code per s)
+    SB = 6000 if tier == 'quick' else 60000
+    sc_all = list(range(0, SB + 1)) + [2 ** j + d for j in range(13, 41) for d in (-1, 0, 1) if 2 ** j + d > SB]
+    for i in range(0, len(sc_all), 200):
+        tasks.append({'kind': 'bits_bound', 'scales': sc_all[i:i + 200], 'wx': 0, 'wy': 0})
+    rep.required_labels = {'eq:True', 'eq:False', 'cmp:Less', 'cmp:Equal', 'cmp:Greater', 'bit-length early-out'}
     rep.bounds = {'magnitudes': '< 2^%d (every combination of 32-bit word counts 0..%d, words symbolic); quick adds ordering at 4-5 words (beyond u128) for gaps 1,3,19,20' % (32 * W, W), 'gaps': gaps,
-                  'scale_difference_overflow_cases': 'i64 extremes, concrete', 's0': 'symbolic |s0| <= 2^60', 'entry points': list(FUNCS)}
+                  'scale_difference_overflow_cases': 'i64 extremes, concrete', 'bit_length_early_out': 'every scale difference 0..%d and 2^j-1, 2^j, 2^j+1 up to 2^40; bit lengths symbolic below 2^48' % SB, 's0': 'symbolic |s0| <= 2^60', 'entry points': list(FUNCS)}
     rep.assumptions = ['BigUint::bits / iter_u32_digits / to_radix_le / comparison contracts of num-bigint', 'count_decimal_digits_uint substituted by its contract (C18)',
                        'lt/le/gt/ge/max/min/sort are core default methods determined by cmp/partial_cmp']
     rep.outside = ['magnitudes >= 2^%d' % (32 * W), 'gaps not listed']
